@@ -168,3 +168,236 @@ func yamlName(tag reflect.StructTag, def string) string {
 	}
 	return n
 }
+
+func init() { register("C13", checkC13) }
+
+func checkC13(c *Ctx, r *Report) {
+	r.Rules = []string{"S-get shape of Config.Get (two merges, override option only, lookup by the requested format)", "D1 content filter table", "V1 override keys validated against the packager registry", "A1 merge-aliasing hazard walk", "documented overridable keys are overridable fields"}
+	r.Explanation = "Shape and table rules over go/ssa and go/types. (S-get) Config.Get performs exactly two mergo.Merge calls: the base Info (by value) into a freshly allocated Info, and the override block obtained by a map lookup whose key is the requested format — nothing else — into that Info's overridable part; both with exactly the option WithOverride (so lists are replaced wholesale and only non-empty values override); the path without an override block returns the base copy. (D1) the content filter in Get is evaluated for every (entry tag, requested format) cell and keeps an entry iff its tag is empty or the requested format. (V1) Config.Validate passes every key of the overrides table to the packager registry lookup and returns its error; the registry lookup fails for an unknown format. (A1) the type tree of Overridables is walked for pointer-kind fields, through which mergo would write into the base configuration, unless Get re-points them to fresh copies before the override merge. The documented '(overridable)' keys are fields of Overridables. mergo's reflective merge itself is trusted."
+	r.Assumptions = []string{
+		"mergo v1.0.1 with WithOverride replaces a destination value by a non-empty source value, slices wholesale, nested structs field by field, and re-makes maps",
+	}
+	get := c.Method("", "Config", "Get")
+	if get == nil {
+		r.Unresolved("(*nfpm.Config).Get", "not found")
+		return
+	}
+	var merges []*ssa.Call
+	forEachInstr(get, func(in ssa.Instruction) {
+		if call, ok := in.(*ssa.Call); ok {
+			if o := calleeObj(call); o != nil && o.Pkg() != nil && o.Pkg().Path() == mergoPath {
+				merges = append(merges, call)
+			}
+		}
+	})
+	r.Check(len(merges) == 2, "S-get", "number of merges in Config.Get", c.pos(get.Pos()), fmt.Sprintf("%d mergo calls; exactly two are expected (base into fresh Info, override block into its overridable part)", len(merges)))
+	var formatParam *ssa.Parameter
+	for _, p := range get.Params {
+		if b, ok := p.Type().Underlying().(*types.Basic); ok && b.Kind() == types.String {
+			formatParam = p
+		}
+	}
+	for i, m := range merges {
+		construct := fmt.Sprintf("merge#%d in Config.Get", i+1)
+		if !calleeIs(m, mergoPath, "", "Merge") {
+			r.Fail("S-get", construct, c.instrPos(m), "only mergo.Merge is expected, found "+calleeName(m))
+			continue
+		}
+		// options: exactly WithOverride
+		var opts []string
+		for _, e := range variadicElems(m.Call.Args[2]) {
+			switch x := e.(type) {
+			case *ssa.Function:
+				opts = append(opts, x.Name())
+			case *ssa.Call:
+				opts = append(opts, calleeName(x))
+			default:
+				opts = append(opts, fmt.Sprintf("%T", e))
+			}
+		}
+		r.Check(len(opts) == 1 && opts[0] == "WithOverride", "S-get", construct+": options", c.instrPos(m), fmt.Sprintf("options %v; exactly [WithOverride] keeps 'non-empty override wins, lists wholesale' semantics", opts))
+		dst := m.Call.Args[0]
+		if mi, ok := dst.(*ssa.MakeInterface); ok {
+			dst = mi.X
+		}
+		src := m.Call.Args[1]
+		if mi, ok := src.(*ssa.MakeInterface); ok {
+			src = mi.X
+		}
+		if i == 0 {
+			_, fresh := dst.(*ssa.Alloc)
+			srcOK := false
+			if ld, ok := src.(*ssa.UnOp); ok {
+				if p, root := addrPath(ld.X); root != nil && p == "Info" && isPtrToNamed(root.Type(), modPath, "Config") {
+					srcOK = true // c.Info by value
+				}
+			}
+			r.Check(fresh && isPtrToNamed(dst.Type(), modPath, "Info") && srcOK, "S-get", construct+": base copy", c.instrPos(m),
+				fmt.Sprintf("destination is a fresh *Info=%v, source is the configuration's Info by value=%v", fresh, srcOK))
+		} else {
+			p, root := addrPath(dst)
+			_, fresh := root.(*ssa.Alloc)
+			dstOK := p == "Overridables" && fresh
+			// source: lookup in c.Overrides keyed by the format parameter
+			srcOK := false
+			if ex, ok := src.(*ssa.Extract); ok {
+				if lk, ok := ex.Tuple.(*ssa.Lookup); ok {
+					if ld, ok := lk.X.(*ssa.UnOp); ok {
+						if pp, _ := addrPath(ld.X); pp == "Overrides" && lk.Index == ssa.Value(formatParam) {
+							srcOK = true
+						}
+					}
+				}
+			}
+			if lk, ok := src.(*ssa.Lookup); ok {
+				if ld, ok := lk.X.(*ssa.UnOp); ok {
+					if pp, _ := addrPath(ld.X); pp == "Overrides" && lk.Index == ssa.Value(formatParam) {
+						srcOK = true
+					}
+				}
+			}
+			r.Check(dstOK && srcOK, "S-get", construct+": override merge", c.instrPos(m),
+				fmt.Sprintf("destination is the fresh Info's overridable part=%v; source is c.Overrides[<requested format>]=%v (a different key would let another format's block take effect)", dstOK, srcOK))
+		}
+	}
+	// no-override path returns the base copy
+	okBase := false
+	for _, b := range get.Blocks {
+		ret, ok := b.Instrs[len(b.Instrs)-1].(*ssa.Return)
+		if !ok {
+			continue
+		}
+		res := retResults(ret)
+		if len(res) == 2 {
+			if _, isAlloc := res[0].(*ssa.Alloc); isAlloc {
+				if k, isC := res[1].(*ssa.Const); isC && k.IsNil() {
+					// reached on the !ok edge of the overrides lookup?
+					for _, p := range b.Preds {
+						if ifi, ok := p.Instrs[len(p.Instrs)-1].(*ssa.If); ok {
+							if ex, ok := ifi.Cond.(*ssa.Extract); ok && ex.Index == 1 {
+								if _, isLk := ex.Tuple.(*ssa.Lookup); isLk && p.Succs[1] == b {
+									okBase = true
+								}
+							}
+						}
+					}
+				}
+			}
+		}
+	}
+	r.Check(okBase, "S-get", "format without an override block gets the base copy", c.pos(get.Pos()), "the not-found edge of the overrides lookup must return the freshly merged base Info")
+
+	// ---- D1 content filter ----
+	cells := 0
+	for _, format := range append(append([]string{}, specFormats...), "otherfmt") {
+		for _, tag := range []string{"", format, "zz-other"} {
+			cells++
+			ev := newEvaluator(c)
+			obj := newAObj("content")
+			obj.Fields["Packager"] = cStr(tag)
+			ev.Defaults[c.contentPtrKey()] = obj
+			args := make([]AV, len(get.Params))
+			for i, p := range get.Params {
+				if p == formatParam {
+					args[i] = cStr(format)
+				}
+			}
+			fr := ev.Explore(get, args)
+			kept := false
+			for _, li := range fr.LiveInstrs() {
+				if call, ok := li.In.(*ssa.Call); ok && li.F == fr {
+					if b, ok := call.Call.Value.(*ssa.Builtin); ok && b.Name() == "append" && isContentContainer(call.Type()) {
+						kept = true
+					}
+				}
+			}
+			want := tag == "" || tag == format
+			r.Check(kept == want, "D1", fmt.Sprintf("Get(%q) keeps entry tagged %q", format, tag), c.pos(get.Pos()), fmt.Sprintf("kept=%v, expected=%v", kept, want))
+		}
+	}
+	r.Count("filter_cells", cells)
+
+	// ---- V1 ----
+	val := c.Method("", "Config", "Validate")
+	reg := c.Func("", "Get")
+	if val == nil || reg == nil {
+		r.Unresolved("Config.Validate / nfpm.Get", "not found")
+	} else {
+		okV := false
+		why := "Config.Validate must range over c.Overrides and pass each key to the registry lookup, returning its error"
+		for _, mr := range findMapRanges(val) {
+			ld, ok := mr.Range.X.(*ssa.UnOp)
+			if !ok {
+				continue
+			}
+			if p, _ := addrPath(ld.X); p != "Overrides" {
+				continue
+			}
+			for _, b := range mr.bodyBlocks() {
+				for _, in := range b.Instrs {
+					call, ok := in.(*ssa.Call)
+					if !ok || call.Call.StaticCallee() != reg || call.Call.Args[0] != mr.Key {
+						continue
+					}
+					ev, _ := errValueOf(call)
+					if ev == nil {
+						why = "the registry lookup's error is discarded"
+						continue
+					}
+					if ok2, w := notSwallowed(c, val, ev); ok2 && usedInNilTest(ev) {
+						okV = true
+						why = "every override key is looked up in the registry and a failure is returned"
+					} else {
+						why = w
+					}
+				}
+			}
+		}
+		r.Check(okV, "V1", "Config.Validate checks every override key", c.pos(val.Pos()), why)
+		// registry lookup fails for an unknown format
+		okR := false
+		forEachInstr(reg, func(in ssa.Instruction) {
+			lk, ok := in.(*ssa.Lookup)
+			if !ok || !lk.CommaOk || len(reg.Params) == 0 || lk.Index != ssa.Value(reg.Params[0]) {
+				return
+			}
+			for _, ref := range *lk.Referrers() {
+				ex, ok := ref.(*ssa.Extract)
+				if !ok || ex.Index != 1 {
+					continue
+				}
+				for _, r2 := range *ex.Referrers() {
+					if ifi, ok := r2.(*ssa.If); ok {
+						nf := ifi.Block().Succs[1]
+						if ret, ok := nf.Instrs[len(nf.Instrs)-1].(*ssa.Return); ok && errorIsNonNilAt(ret) {
+							okR = true
+						}
+					}
+				}
+			}
+		})
+		r.Check(okR, "V1", "nfpm.Get fails for an unregistered format", c.pos(reg.Pos()), "the not-found edge of the registry lookup (keyed by the requested format) must return a non-nil error")
+	}
+
+	// ---- A1 ----
+	checkMergeAlias(c, r, "A1")
+
+	// ---- documented overridable keys ----
+	docKeys, err := documentedKeys(c.RepoDir, "(overridable)")
+	if err != nil {
+		r.Unresolved("www/docs/configuration.md", err.Error())
+	} else {
+		ov := c.NamedType("", "Overridables")
+		names := map[string]bool{}
+		if st, ok := ov.Underlying().(*types.Struct); ok {
+			for i := 0; i < st.NumFields(); i++ {
+				names[yamlName(reflect.StructTag(st.Tag(i)), st.Field(i).Name())] = true
+			}
+		}
+		for _, k := range docKeys {
+			r.Check(names[k], "DOC-overridable", "documented overridable key "+k, "www/docs/configuration.md", "a key documented as overridable must be a field of Overridables (otherwise an override block setting it is rejected or ignored)")
+		}
+		r.Floor("DOC-overridable", len(docKeys), 7)
+	}
+	r.Exhaustive = true
+}
